@@ -2,6 +2,7 @@
 package c08
 
 import (
+	"bufio"
 	"bytes"
 	"encoding/binary"
 	"errors"
@@ -10,6 +11,7 @@ import (
 	"reflect"
 	"runtime/metrics"
 	"strings"
+	"testing/iotest"
 
 	"github.com/segmentio/encoding/thrift"
 	"verif/mc/explore"
@@ -111,22 +113,37 @@ func eofClass(err error) string {
 
 var readerMethods = []struct {
 	name string
-	call func(r thrift.Reader) error
+	call func(r thrift.Reader) (any, error)
+	// need is the number of bytes without which the value cannot be complete (0: it depends on the content)
+	needBinary, needCompact int
 }{
-	{"ReadBool", func(r thrift.Reader) error { _, e := r.ReadBool(); return e }},
-	{"ReadInt8", func(r thrift.Reader) error { _, e := r.ReadInt8(); return e }},
-	{"ReadInt16", func(r thrift.Reader) error { _, e := r.ReadInt16(); return e }},
-	{"ReadInt32", func(r thrift.Reader) error { _, e := r.ReadInt32(); return e }},
-	{"ReadInt64", func(r thrift.Reader) error { _, e := r.ReadInt64(); return e }},
-	{"ReadFloat64", func(r thrift.Reader) error { _, e := r.ReadFloat64(); return e }},
-	{"ReadBytes", func(r thrift.Reader) error { _, e := r.ReadBytes(); return e }},
-	{"ReadString", func(r thrift.Reader) error { _, e := r.ReadString(); return e }},
-	{"ReadLength", func(r thrift.Reader) error { n, e := r.ReadLength(); lastCount = int64(n); return e }},
-	{"ReadMessage", func(r thrift.Reader) error { _, e := r.ReadMessage(); return e }},
-	{"ReadField", func(r thrift.Reader) error { _, e := r.ReadField(); return e }},
-	{"ReadList", func(r thrift.Reader) error { l, e := r.ReadList(); lastCount = int64(l.Size); return e }},
-	{"ReadSet", func(r thrift.Reader) error { l, e := r.ReadSet(); lastCount = int64(l.Size); return e }},
-	{"ReadMap", func(r thrift.Reader) error { l, e := r.ReadMap(); lastCount = int64(l.Size); return e }},
+	{"ReadBool", func(r thrift.Reader) (any, error) { return r.ReadBool() }, 1, 1},
+	{"ReadInt8", func(r thrift.Reader) (any, error) { return r.ReadInt8() }, 1, 1},
+	{"ReadInt16", func(r thrift.Reader) (any, error) { return r.ReadInt16() }, 2, 1},
+	{"ReadInt32", func(r thrift.Reader) (any, error) { return r.ReadInt32() }, 4, 1},
+	{"ReadInt64", func(r thrift.Reader) (any, error) { return r.ReadInt64() }, 8, 1},
+	{"ReadFloat64", func(r thrift.Reader) (any, error) { return r.ReadFloat64() }, 8, 8},
+	{"ReadBytes", func(r thrift.Reader) (any, error) { return r.ReadBytes() }, 4, 1},
+	{"ReadString", func(r thrift.Reader) (any, error) { return r.ReadString() }, 4, 1},
+	{"ReadLength", func(r thrift.Reader) (any, error) { n, e := r.ReadLength(); lastCount = int64(n); return n, e }, 4, 1},
+	{"ReadMessage", func(r thrift.Reader) (any, error) { return r.ReadMessage() }, 0, 4},
+	{"ReadField", func(r thrift.Reader) (any, error) { return r.ReadField() }, 1, 1},
+	{"ReadList", func(r thrift.Reader) (any, error) { l, e := r.ReadList(); lastCount = int64(l.Size); return l, e }, 5, 1},
+	{"ReadSet", func(r thrift.Reader) (any, error) { l, e := r.ReadSet(); lastCount = int64(l.Size); return l, e }, 5, 1},
+	{"ReadMap", func(r thrift.Reader) (any, error) { l, e := r.ReadMap(); lastCount = int64(l.Size); return l, e }, 6, 1},
+}
+
+// readerKinds are the io.Readers the protocol readers are put on top of (they look at the concrete type
+// for byte-wise reads and for discarding).
+var readerKinds = []struct {
+	name string
+	mk   func(in []byte) io.Reader
+}{
+	{"bytes.Reader", func(in []byte) io.Reader { return bytes.NewReader(in) }},
+	{"bytes.Buffer", func(in []byte) io.Reader { return bytes.NewBuffer(append([]byte{}, in...)) }},
+	{"bufio.Reader", func(in []byte) io.Reader { return bufio.NewReaderSize(bytes.NewReader(in), 16) }},
+	{"one-byte reads", func(in []byte) io.Reader { return iotest.OneByteReader(bytes.NewReader(in)) }},
+	{"data with EOF", func(in []byte) io.Reader { return iotest.DataErrReader(bytes.NewReader(in)) }},
 }
 
 // lastCount is the length or element count returned by the last ReadLength / ReadList / ReadSet / ReadMap call.
@@ -138,16 +155,22 @@ func readerBytes(c *explore.Ctx) {
 	p := protos[c.Choose(3)]
 	m := readerMethods[c.Choose(len(readerMethods))]
 	mode := c.Choose(2)
+	rk := readerKinds[c.Choose(len(readerKinds))]
+	need := m.needBinary
+	if p == spec.Compact {
+		need = m.needCompact
+	}
 	var n int64
 	run := func(in []byte) {
 		n++
 		var err error
+		var res any
 		lastCount = 0
 		before := allocated()
-		pv, ps := explore.Catch(func() { err = m.call(impl(p).NewReader(bytes.NewReader(in))) })
+		pv, ps := explore.Catch(func() { res, err = m.call(impl(p).NewReader(rk.mk(in))) })
 		used := allocated() - before
 		if pv != nil {
-			c.Fail("Reader:panic:"+m.name+":"+ps+":"+explore.PanicClass(pv), "%s on % x (%s) panicked: %v", m.name, in, p, pv)
+			c.Fail("Reader:panic:"+m.name+":"+ps+":"+explore.PanicClass(pv), "%s on % x (%s over %s) panicked: %v", m.name, in, p, rk.name, pv)
 			return
 		}
 		if err == nil && lastCount < 0 {
@@ -155,7 +178,7 @@ func readerBytes(c *explore.Ctx) {
 		}
 		for rep := 0; rep < 3 && used > budget(len(in)); rep++ { // lazily flushed allocation statistics: only a reproducible excess counts
 			b0 := allocated()
-			explore.Catch(func() { m.call(impl(p).NewReader(bytes.NewReader(in))) })
+			explore.Catch(func() { m.call(impl(p).NewReader(rk.mk(in))) })
 			if u := allocated() - b0; u < used {
 				used = u
 			}
@@ -164,10 +187,29 @@ func readerBytes(c *explore.Ctx) {
 			c.Fail("Reader:alloc:"+m.name+":"+proto3(p), "%s on %d bytes % x (%s) allocated %d bytes", m.name, len(in), in, p, used)
 		}
 		if len(in) == 0 && err != io.EOF {
-			c.Fail("Reader:empty-input-not-io.EOF:"+m.name+":"+proto3(p), "%s on empty input (%s) returned %v, want io.EOF", m.name, p, err)
+			c.Fail("Reader:empty-input-not-io.EOF:"+m.name+":"+proto3(p), "%s on empty input (%s over %s) returned %v, want io.EOF", m.name, p, rk.name, err)
 		}
 		if len(in) > 0 && err == io.EOF {
-			c.Fail("Reader:plain-io.EOF-on-truncated-input:"+m.name+":"+proto3(p), "%s on non-empty truncated input % x (%s) returned plain io.EOF", m.name, in, p)
+			c.Fail("Reader:plain-io.EOF-on-truncated-input:"+m.name+":"+proto3(p), "%s on non-empty truncated input % x (%s over %s) returned plain io.EOF", m.name, in, p, rk.name)
+		}
+		// a value that takes `need` bytes cannot come out of fewer
+		if err == nil && len(in) < need {
+			c.Fail("Reader:value-from-truncated-input:"+m.name+":"+proto3(p), "%s on the %d bytes % x (%s over %s) returns %v without an error; the value takes at least %d bytes", m.name, len(in), in, p, rk.name, res, need)
+		}
+		// the Reader consumes its input front to back: what it returns for a complete input it cannot have
+		// returned, differently, for a proper prefix of that input
+		if err == nil {
+			for j := 0; j < len(in); j++ {
+				var perr error
+				var pres any
+				if pv, _ := explore.Catch(func() { pres, perr = m.call(impl(p).NewReader(rk.mk(in[:j]))) }); pv != nil || perr != nil {
+					continue
+				}
+				if !reflect.DeepEqual(pres, res) {
+					c.Fail("Reader:prefix-gives-another-value:"+m.name+":"+proto3(p), "%s (%s over %s) returns %v for % x but %v, also without an error, for its %d-byte prefix", m.name, p, rk.name, res, in, pres, j)
+					break
+				}
+			}
 		}
 	}
 	if mode == 0 {
@@ -182,6 +224,9 @@ func readerBytes(c *explore.Ctx) {
 		maxL := 5
 		if c.Thorough() {
 			maxL = 6
+		}
+		if rk.name != "bytes.Reader" {
+			maxL -= 2 // the other kinds of reader differ in how bytes are fetched, not in what they mean
 		}
 		buf := make([]byte, 0, 8)
 		var rec func(d int)
@@ -199,10 +244,10 @@ func readerBytes(c *explore.Ctx) {
 		rec(0)
 	}
 	c.Inner(n)
-	c.NontrivialStr("reader", p.String(), m.name, fmt.Sprint(mode))
+	c.NontrivialStr("reader", p.String(), m.name, fmt.Sprint(mode), rk.name)
 	c.Outcome("reader-" + proto3(p))
 	if c.WantSample() {
-		c.Case(map[string]any{"protocol": p.String(), "method": m.name, "inputs": n, "mode": []string{"all byte strings <=2", "class alphabet <=5"}[mode]})
+		c.Case(map[string]any{"protocol": p.String(), "method": m.name, "reader": rk.name, "inputs": n, "mode": []string{"all byte strings <=2", "class alphabet <=5"}[mode]})
 	}
 }
 
@@ -960,6 +1005,87 @@ func deepMismatch(ast spec.Val, visit func(spec.Val, string)) {
 	rec(ast, func(x spec.Val) spec.Val { return x }, 0, "")
 }
 
+// ---- top-level targets that are not structs
+
+var toplevelValues = []any{
+	true, false, int8(-3), int16(300), int16(-1), int32(70000), int32(-2), int64(1) << 40, int64(-1), int64(5), 1.5, 0.0,
+	"", "a", "hello, world", strings.Repeat("x", 200), []byte{}, []byte{1, 2, 3},
+	[]int32{}, []int32{1, -1, 70000}, []int64{1 << 50, 2}, []float64{1.5, -2}, []bool{true, false, true}, []string{"a", "", "bcd"}, []int16{1, 2, 3, 4, 5, 6, 7, 8, 9, 10, 11, 12, 13, 14, 15, 16},
+	[][]int16{{1}, {}, {2, 3}}, map[string]int32{"k": 7}, map[int32]float64{3: 1.5}, map[int64]struct{}{9: {}}, map[string][]int64{"k": {1, 2}},
+	struct {
+		A int32  `thrift:"1"`
+		B string `thrift:"2"`
+	}{7, "b"},
+}
+
+// toplevelTruncations: the encoding of a value that is not a struct, cut at every offset.
+func toplevelTruncations(c *explore.Ctx) {
+	p := protos[c.Choose(3)]
+	val := toplevelValues[c.Choose(len(toplevelValues))]
+	rk := c.Choose(len(readerKinds) + 1) // 0: Unmarshal, else a Decoder on that kind of reader
+	t := reflect.TypeOf(val)
+	e, err := thrift.Marshal(impl(p), val)
+	if err != nil {
+		c.Fail("toplevel:Marshal-error", "Marshal(%s, %#v): %v", p, val, err)
+		return
+	}
+	how := "Unmarshal"
+	if rk > 0 {
+		how = "Decoder over " + readerKinds[rk-1].name
+	}
+	dec := func(in []byte) (reflect.Value, error, bool) {
+		out := reflect.New(t)
+		var err error
+		pv, ps := explore.Catch(func() {
+			if rk == 0 {
+				err = thrift.Unmarshal(impl(p), in, out.Interface())
+			} else {
+				err = thrift.NewDecoder(impl(p).NewReader(readerKinds[rk-1].mk(in))).Decode(out.Interface())
+			}
+		})
+		if pv != nil {
+			c.Fail("toplevel:panic:"+ps+":"+explore.PanicClass(pv), "%s of % x (%s) into %s panicked: %v", how, trunc(in), p, t, pv)
+			return out, nil, false
+		}
+		return out, err, true
+	}
+	got, err, ok := dec(e)
+	if ok && err != nil {
+		c.Fail("toplevel:complete-input-rejected:"+proto3(p)+":"+t.String(), "%s of the complete encoding % x of %#v (%s): %v", how, trunc(e), val, p, err)
+	} else if ok {
+		pgen.FloatsByValue = true
+		if ds := pgen.Diffs(reflect.ValueOf(val), got.Elem()); len(ds) > 0 {
+			c.Fail("toplevel:value-differs:"+proto3(p)+":"+t.String(), "%s of % x (%s) gives %#v, want %#v", how, trunc(e), p, got.Elem().Interface(), val)
+		}
+	}
+	for cut := 0; cut < len(e); cut++ {
+		_, err, ok := dec(e[:cut])
+		if !ok {
+			continue
+		}
+		cls := eofClass(err)
+		switch {
+		case cut == 0 && err != io.EOF:
+			c.Fail("toplevel:empty-input:"+cls+":"+proto3(p)+":"+t.String(), "%s of empty input into %s (%s) returned %v, want io.EOF", how, t, p, err)
+		case cut > 0 && cls != "unexpected-EOF":
+			c.Fail("toplevel:truncation:"+cls+":"+proto3(p)+":"+t.String(), "%s of the %d-byte prefix % x of % x into %s (%s) returned %v, want an unexpected-EOF class error", how, cut, trunc(e[:cut]), trunc(e), t, p, err)
+		}
+	}
+	if rk == 0 {
+		for _, extra := range []byte{0x00, 0x01, 0xff} {
+			if _, err, ok := dec(append(append([]byte{}, e...), extra)); ok && err == nil {
+				c.Fail("toplevel:trailing-bytes-accepted:"+proto3(p)+":"+t.String(), "Unmarshal into %s accepts % x followed by %#02x (%s)", t, trunc(e), extra, p)
+			}
+		}
+	}
+	c.Inner(int64(len(e)) + 4)
+	c.NontrivialStr("toplevel", p.String(), fmt.Sprintf("%#v", val), how)
+	c.Outcome(fmt.Sprintf("%s %s", proto3(p), t.Kind()))
+	if c.WantSample() || c.Failed() {
+		c.Case(map[string]any{"protocol": p.String(), "value": fmt.Sprintf("%#v", val), "how": how, "encoding": fmt.Sprintf("%x", trunc(e))})
+	}
+}
+
 // ---- hostile sizes
 
 type T1 struct {
@@ -999,7 +1125,7 @@ func hostileSizes(c *explore.Ctx) {
 	}{{"", 0, 0}, {"bool", 2, 2}, {"i8", 3, 3}, {"i16", 6, 4}, {"i32", 8, 5}, {"i64", 10, 6}, {"double", 4, 7}, {"binary", 11, 8}, {"struct", 12, 12}, {"list", 15, 9}}
 	alt := alts[c.Choose(len(alts))]
 	unknown := c.Choose(2) == 1
-	avail := c.Choose(5) // bytes of payload actually present after the header: 0, 2, 64, 70000 (more than one read chunk)
+	avail := c.Choose(5)          // bytes of payload actually present after the header: 0, 2, 64, 70000 (more than one read chunk)
 	fill := byte(1 - c.Choose(2)) // the bytes present are 01s, or 00s (which read as stop fields / empty items once the decoder has lost its place)
 	payload := bytes.Repeat([]byte{fill}, []int{0, 1, 2, 64, 70000}[avail])
 	var in []byte
@@ -1096,7 +1222,8 @@ func Spec() *explore.Spec {
 	return &explore.Spec{
 		ID: "C08",
 		Families: []*explore.Family{
-			{Name: "reader-bytes", ShardDepth: 2, Body: readerBytes, Doc: "every Reader method of the 3 protocols on all byte strings <=2 over all 256 values and <=5 (6) over a 16-byte class alphabet: no panic, bounded allocation, io.EOF exactly for empty input"},
+			{Name: "reader-bytes", ShardDepth: 4, Body: readerBytes, Doc: "every Reader method of the 3 protocols over 5 kinds of io.Reader (bytes.Reader, bytes.Buffer, bufio.Reader, one-byte reads, data delivered together with EOF) on all byte strings <=2 over all 256 values and <=5 (6; <=3 (4) for the kinds other than bytes.Reader) over a 16-byte class alphabet: no panic, bounded allocation, io.EOF exactly for empty input, no value out of fewer bytes than the value takes, and no proper prefix of an accepted input yields another value"},
+			{Name: "toplevel-truncations", ShardDepth: 2, Body: toplevelTruncations, Doc: "31 values that are not structs (every scalar kind, strings, binaries, lists, lists of lists, maps, sets; one struct as control) x 3 protocols x {Unmarshal, Decoder over 5 kinds of io.Reader}: the complete encoding decodes to the value, every proper prefix fails with an unexpected-EOF class error (io.EOF for the empty one), Unmarshal reports a trailing byte"},
 			{Name: "truncations", ShardDepth: 2, Body: truncations, Bound: func(string) int { return 1 }, Doc: "valid encodings (struct types of 1-2 fields x id layouts x values x 3 protocols): every prefix must fail with an unexpected-EOF class error (io.EOF for the empty prefix), a trailing byte must be reported, every (position x 256) corruption decodes without panic and within the allocation budget (also in strict mode)"},
 			{Name: "unknown-insertion", ShardDepth: 2, Body: unknownInsertion, Bound: func(string) int { return 1 }, Doc: "one unknown field (ids below/in a gap/above/64+ above the declared ids, 32767) of every thrift type with nested values (20 values, depth 2) inserted at every field boundary of the top-level and nested structs: decoded value unchanged"},
 			{Name: "required-and-strict", ShardDepth: 2, Body: requiredAndStrict, Bound: func(string) int { return 1 }, Doc: "each required field removed -> MissingField naming it; each field sent with each of the other 10 wire types -> TypeMismatch in strict mode, skipped without disturbing the other fields otherwise"},
